@@ -51,6 +51,17 @@ claim("C05", "model_checking",
       "TLA+ contract spec (Lower.tla over Tree.tla) model-checked by TLC over trees exported from the "
       "real lowering; inputs are TLC-generated behaviours of PhaseGen.tla / ProgGen.tla")
 
+claim("C10", "model_checking",
+      "every method description of the MethodGen space (all edge sets on <=3/4 statements incl. self-loops "
+      "and cycles, dangling and cross-phase edges, switch targets, flag writers) plus random larger ones is "
+      "given to the real verify_code and, when accepted, to the interpreter and both generators; TLC "
+      "evaluates the specification's own WellFormed predicate and judges the recorded outcomes",
+      "trusted: construction of real DAGCode objects from the generated description; timeouts (10 s) stand "
+      "for 'hangs'",
+      "TLA+ contract spec (Verify.tla: WellFormed, AcceptIff, DocumentedError, ConsumersSafe) evaluated by "
+      "TLC over outcomes recorded from the real verify_code; inputs are TLC-generated behaviours of "
+      "MethodGen.tla")
+
 NOT_YET = "check not built yet (work in progress, see DESIGN.md section 11)"
 NOT_APPLICABLE = {}
 
